@@ -8,6 +8,7 @@ package conform
 import (
 	"fmt"
 	"reflect"
+	"sort"
 	stdsync "sync"
 	"testing"
 	"testing/synctest"
@@ -224,6 +225,68 @@ func TestReflectSelectCaseLimitAgrees(t *testing.T) {
 		inSim(t, 1, func() { stand = catch(func() { sim.ReflectSelect(cs) }) })
 		if real != stand {
 			t.Fatalf("%d cases: reflect.Select panics with %q, the stand-in with %q", n, real, stand)
+		}
+	}
+}
+
+// The sync.Map stand-in against the real one: random operation sequences over a few keys and
+// values (nil among them) must give the same results; Range is compared as a set.
+func TestMapAgreesWithSyncMap(t *testing.T) {
+	keys := []any{nil, 1, "k", 2.5}
+	vals := []any{nil, 1, "x", 7}
+	for seed := uint64(1); seed <= 300; seed++ {
+		var real stdsync.Map
+		var log []string
+		inSim(t, seed, func() {
+			var m vsync.Map
+			for i := 0; i < 60; i++ {
+				k := keys[sim.Choose(len(keys), "k")]
+				v := vals[sim.Choose(len(vals), "v")]
+				v2 := vals[sim.Choose(len(vals), "v2")]
+				var a, b string
+				switch op := sim.Choose(9, "op"); op {
+				case 0:
+					m.Store(k, v)
+					real.Store(k, v)
+				case 1:
+					x, ok := m.Load(k)
+					y, ok2 := real.Load(k)
+					a, b = fmt.Sprint(x, ok), fmt.Sprint(y, ok2)
+				case 2:
+					x, ok := m.LoadOrStore(k, v)
+					y, ok2 := real.LoadOrStore(k, v)
+					a, b = fmt.Sprint(x, ok), fmt.Sprint(y, ok2)
+				case 3:
+					x, ok := m.LoadAndDelete(k)
+					y, ok2 := real.LoadAndDelete(k)
+					a, b = fmt.Sprint(x, ok), fmt.Sprint(y, ok2)
+				case 4:
+					m.Delete(k)
+					real.Delete(k)
+				case 5:
+					x, ok := m.Swap(k, v)
+					y, ok2 := real.Swap(k, v)
+					a, b = fmt.Sprint(x, ok), fmt.Sprint(y, ok2)
+				case 6:
+					a, b = fmt.Sprint(m.CompareAndSwap(k, v, v2)), fmt.Sprint(real.CompareAndSwap(k, v, v2))
+				case 7:
+					a, b = fmt.Sprint(m.CompareAndDelete(k, v)), fmt.Sprint(real.CompareAndDelete(k, v))
+				default:
+					var xs, ys []string
+					m.Range(func(k, v any) bool { xs = append(xs, fmt.Sprint(k, "=", v)); return true })
+					real.Range(func(k, v any) bool { ys = append(ys, fmt.Sprint(k, "=", v)); return true })
+					sort.Strings(xs)
+					sort.Strings(ys)
+					a, b = fmt.Sprint(xs), fmt.Sprint(ys)
+				}
+				if a != b {
+					log = append(log, fmt.Sprintf("seed %d step %d: stand-in %s, sync.Map %s", seed, i, a, b))
+					return
+				}
+			}
+		})
+		if len(log) > 0 {
+			t.Fatal(log[0])
 		}
 	}
 }
